@@ -59,6 +59,12 @@ package server
 //@   claims at-call
 //@   at-call peer.stopFSM() requires called(Store)
 //@   at-call peer.fsm.state.Store( requires arg1 == bgp.BGP_FSM_IDLE
+// from C07 "the connection that survives collision resolution" (RFC 4271 6.8): the local side is dominant exactly when
+// its identifier is the higher one, or the identifiers are equal and its AS is higher than the peer's real AS (the one
+// of the 4-octet capability, not AS_TRANS in the My-AS field)
+//@ func (*fsm).isDominant
+//@   claims at-return
+//@   at-return requires ret0 <==> (localID > remoteID || (localID == remoteID && myAS > getASN(open)))
 //@ func (*fsmHandler).established$2
 //@   claims at-call
 //@   at-call bgp.NewBGPNotificationMessage( requires len(arg2) == len(m.Body.(*bgp.BGPNotification).Data) + 2 && arg2[0] == m.Body.(*bgp.BGPNotification).ErrorCode && arg2[1] == m.Body.(*bgp.BGPNotification).ErrorSubcode
@@ -75,7 +81,12 @@ package server
 //@   spec-only
 //@ func getASN
 //@   pure
-//@   spec-only
+// (vocabulary in the clauses below, and pinned to the rule "peer type taken from the real remote AS" of C08: the real AS
+// is the one in the 4-octet-AS capability - every such capability met in the scan replaces the value, so the last one
+// stands, which is the one ValidateOpenMsg checks against the configuration; the scan covers the whole OPEN)
+//@   claims step at-return
+//@   loop 1 step c.Code() == bgp.BGP_CAP_FOUR_OCTET_AS_NUMBER ==> asn == c.(*bgp.CapFourOctetASNumber).CapValue
+//@   at-return requires ret0 == asn && __iter + 1 >= len(m.OptParams)
 
 // Established: the parameters the session runs with. The assertions sit at the first call after the
 // parameters have been written (thread-local view of `conf`, the copy that the deferred Update publishes).
@@ -264,7 +275,16 @@ package server
 // before, so the caller is handed its implicit withdrawal - every route of the UPDATE puts exactly one entry on
 // one of the two lists the caller gets (End-of-RIB markers on eor, everything else on paths)
 //@ func (*peer).handleUpdate
+//@   tag C09 C07
 //@   claims step at-call
+// from C09 "received routes containing the local AS ... or the local router-id as ORIGINATOR_ID ... are not used": when
+// a withdrawal is handed on in place of the received route, the received route - the object the Adj-RIB-In keeps - is
+// the one marked as rejected (a mark on the withdrawing copy is lost with it; a replay of the accepted routes would
+// then install the looped route)
+//@   loop 0 step len(paths) == header(len(paths)) + 1 && paths[len(paths)-1] != path ==> path.rejected
+// from C07 "prefix-limit overrun ... yields the NOTIFICATION": after the UPDATE is stored, the limit of every configured
+// family is looked at (an UPDATE may carry several families)
+//@   loop 1 step called(isPrefixLimit)
 //@   loop 0 step len(paths) + len(eor) == header(len(paths) + len(eor)) + 1
 // ... "or the local cluster-id in CLUSTER_LIST": a route of an iBGP peer is only accepted after its CLUSTER_LIST
 // has been looked at (RFC 4456 8; known finding D37: the receive side never does, only filterpath on the way out
@@ -305,6 +325,12 @@ package server
 // targets ..., and every membership ... change triggers exactly the advertisements and withdrawals needed": when a
 // membership is withdrawn, only routes the peer is no longer interested in (after the change) are withdrawn from it
 //@ props C17
+// "iff the peer currently has an accepted membership for one of the route's targets (or the default membership)": every
+// membership announcement or withdrawal that arrives is recorded in the peer's membership set, whatever else the
+// peer holds at that moment (what is advertised later is decided from that set)
+//@ func (*BgpServer).processRTCMembership
+//@   claims at-return
+//@   at-return requires ok ==> called(SyncAfterImport)
 //@ func (*BgpServer).processRTCMembership$2
 //@   claims at-call
 // (the list handed to the peer in the withdraw branch is built by these appends alone)
@@ -327,6 +353,11 @@ package server
 // from C12 "kept ... until the per-family long-lived timer expires": the family whose long-lived timer has just
 // fired counts as expired when the peer's restart state is wound up - it never keeps "all expired" from being true
 //@ props C12
+// "until the per-family long-lived timer expires": the timer runs for the time the PEER announced for the family in
+// its long-lived capability (State), not for what is configured locally
+//@ func (*peer).llgrRestartTime
+//@   claims at-return
+//@   at-return requires ret0 == 0 || ret0 == a.LongLivedGracefulRestart.State.PeerRestartTime
 //@ func (*peer).llgrRestartTimerExpired
 //@   claims step
 //@   loop 0 step a.State.Family == family ==> all == header(all)
@@ -354,6 +385,10 @@ package server
 //@   at-call peer.fsm.bgpMessageResetStats() requires called(clearedNeighborState)
 //@   at-call ^s.dropAdjRIBIn(peer, peer.configuredRFlist()) requires restartTimerExpired
 //@   at-call peer.llgrFamilies() requires restartTimerExpired
+// "routes of the families the peer listed in its GR capability stay usable but marked stale": every qualifying loss
+// marks them - also a second loss inside the restart window, when routes the session in between re-announced are
+// fresh again
+//@   at-call s.resetAdvertisedRoutes(peer) requires graceful ==> called(StaleAll)
 // "... or with long-lived GR they are instead kept carrying LLGR_STALE (NO_LLGR routes dropped)": whenever the restart
 // timer of a restarting peer expires, one of the two happens - the retained routes are dropped, or they go through
 // the long-lived treatment (also when the long-lived timers are already running from an earlier loss: the routes of
